@@ -77,6 +77,17 @@ def tampers(rel, data, kind_files, versions):
         out.append(("truncate-0", b""))
         out.append(("truncate-half", data[: n // 2]))
         out.append(("truncate-1", data[:-1]))
+        for i in range(1, 8):      # interior offsets, evenly spread
+            b = bytearray(data)
+            b[n * i // 8 - (1 if n * i // 8 == n else 0)] ^= 0x80 >> i
+            out.append((f"flip-at{i}of8", bytes(b)))
+        if rel.endswith(".json"):
+            # byte changes which a text-mode reader / JSON parser would normalise away
+            out.append(("text-crlf", data.replace(b"\n", b"\r\n")))
+            out.append(("text-cr", data.replace(b"\n", b"\r", 1)))
+            out.append(("text-space", data.replace(b":", b": ", 1) if b": " not in data[:data.find(b":") + 2] else data.replace(b": ", b":  ", 1)))
+            out.append(("text-trailing-space", data + b" "))
+            out.append(("text-bom", b"\xef\xbb\xbf" + data))
     out.append(("extend", data + b"\n"))
     out.append(("delete", None))
     for other in kind_files:
